@@ -2,7 +2,8 @@
 """Regenerates MANIFEST.json from plans.py (claimed checks) and manifest_texts.py."""
 import json, os, subprocess, sys
 sys.path.insert(0, os.path.dirname(os.path.abspath(__file__)))
-from plans import PLANS
+from plans import PLANS, WIP
+PLANS = {k: v for k, v in PLANS.items() if k not in WIP}
 from manifest_texts import TEXTS, NOT_BUILT_REASON
 
 ALL = ["C%02d" % i for i in range(1, 21)]
